@@ -84,6 +84,9 @@ def finish(res: Result, tier: str, seed: int, t0: float, selftest: Optional[dict
         if k is None:
             return False
         # an entry may pin the exact diagnosis: a different failure at the same construct is new
+        if "detail_pattern" in k:
+            import re
+            return re.search(k["detail_pattern"], i.detail) is not None
         return "detail" not in k or k["detail"] == i.detail
 
     new_viol = [i for i in viol if not listed(i)]
